@@ -335,6 +335,12 @@ def gen_part(rng, pid, plan, has_pickup, profile):
                             mp = midi_pitch(step, alter, octave)
                             if mp not in used:
                                 break
+                        if profile in ("midi", "match") and rng.random() < 0.05:
+                            # the ends of the MIDI range: C-1 .. B0 (pitches 0-23) and C9 .. G9 (120-127)
+                            step2, octave2 = rng.choice((("C", -1), ("D", -1), ("B", -1), ("C", 0), ("A", 0), ("C", 9), ("G", 9), ("F", 9)))
+                            if midi_pitch(step2, None, octave2) not in used:
+                                step, alter, octave = step2, None, octave2
+                                mp = midi_pitch(step, alter, octave)
                         used.add(mp)
                         n.update({"step": step, "alter": alter, "octave": octave})
                     notes.append(n)
@@ -449,7 +455,7 @@ def decorate(rng, part, profile):
                     "sym": {"type": rng.choice(("eighth", "16th")), "dots": 0},
                     "step": rng.choice(STEPS),
                     "alter": None,
-                    "octave": main["octave"],
+                    "octave": main["octave"] if main["octave"] < 9 else 8,
                     "grace_type": gtype,
                     "m": main["m"],
                     "g": None,
@@ -497,6 +503,17 @@ def decorate(rng, part, profile):
                 if rng.random() < 0.3 and j + 1 < len(pitched) and pitched[j + 1]["t"] > pitched[j]["t"]:
                     # a second slur starting where the first ends
                     part["slurs"].append({"start": pitched[j]["id"], "end": pitched[j + 1]["id"]})
+    if profile == "full":
+        # a slur from the first grace note of a run to its main note: both ends have the same onset
+        byid_ = {n["id"]: n for n in notes}
+        for n in notes:
+            if n["kind"] == "grace" and not n.get("grace_prev") and rng.random() < 0.35:
+                x = n
+                while x.get("grace_next") and byid_[x["grace_next"]]["kind"] == "grace":
+                    x = byid_[x["grace_next"]]
+                main_ = byid_.get(x.get("grace_next"))
+                if main_ is not None and not any(sl["start"] == n["id"] or sl["end"] == main_["id"] or sl["start"] == main_["id"] for sl in part["slurs"]):
+                    part["slurs"].append({"start": n["id"], "end": main_["id"]})
     # --- per-note decorations
     for n in notes:
         if n["kind"] == "note":
